@@ -295,9 +295,16 @@ def check(case):
     pas = []
     # keep the search grid small whatever h is: spacing relative to the
     # smallest per-round maximum of h
-    hm = [max([h for a in case['arrays'] for h in a['rounds'][r]['h']] or
-              [1.0]) for r in range(3)]
-    sp = 0.05 * min(hm)
+    # (the cell size follows the largest h among the arrays that hold
+    # particles in that round; with fixed_h the values of round 0 stay)
+    hm = []
+    for r in range(3):
+        for rr in (r, 0):
+            hs = [h for a in case['arrays'] if present(a, r)
+                  for h in a['rounds'][rr]['h']]
+            if hs:
+                hm.append(max(hs))
+    sp = 0.05 * min(hm or [1.0])
     def coords(i, n):
         x = (np.arange(n, dtype=float) * 0.37 + i * 0.11) * sp
         return x, x * 0.5, x * 0.25
